@@ -8,7 +8,11 @@ here = sys.argv[1]
 sys.path.insert(0, here + '/tools')
 import vlib
 t0 = time.time()
+import glob, os
 targets = ["Common/Corr.vo"] + [f"Props/{c['property_id']}.vo" for c in json.load(open(here + '/MANIFEST.json'))['checks']]
+# auxiliary property files built by a registered check (e.g. Props/C02code.v: the translator tie of C02/C03)
+targets += [f"Props/{os.path.basename(p)[:-2]}.vo" for p in sorted(glob.glob(here + '/coq/Props/*.v'))
+            if f"Props/{os.path.basename(p)[:-2]}.vo" not in targets]
 with vlib.CoqLock():
     vlib.ensure_makefile()
     rc, out = vlib.sh(["make", "-k", "-j16", "--no-print-directory"] + targets, 3000, cwd=vlib.COQ)
